@@ -402,7 +402,11 @@ pub fn evaluate(prog: &Program, out: &RunOut) -> (Vec<Viol>, Feat) {
     // ---- memory ---------------------------------------------------------------
     for m in out.outcome.mem.iter() {
         v.push(Viol {
-            pred: if m.kind == "race" { "race" } else { "uaf" },
+            pred: match m.kind {
+                "race" => "race",
+                "wait_in_cs" => "waited_inside_critical_section",
+                _ => "uaf",
+            },
             op: a.op_of(m.vid, m.stamp).map(|x| x as u32),
             detail: m.detail.clone(),
         });
@@ -928,10 +932,17 @@ fn blocking_kind(o: &OpRec) -> bool {
 
 fn progress_preds(a: &Analysis, out: &RunOut, v: &mut Vec<Viol>, f: &mut Feat) {
     if let Some(t) = out.outcome.livelock {
+        // which operation was it in?
+        let cur = a.ops.iter().enumerate().rev().find(|(_, o)| o.t == t && o.ret == 0);
+        let (opi, wher) = match cur {
+            Some((i, o)) if o.k.is_async() => (Some(i as u32), format!("inside a poll / drop of {}", o.k.name())),
+            Some((i, o)) => (Some(i as u32), format!("inside {}", o.k.name())),
+            None => (None, "outside any operation".to_string()),
+        };
         v.push(Viol {
             pred: "livelock",
-            op: None,
-            detail: format!("thread {} spins for ever under a fair schedule", t),
+            op: opi,
+            detail: format!("thread {} spins for ever under a fair schedule, {}", t, wher),
         });
     }
     if let rt::End::Abandoned(w) = &out.outcome.end {
@@ -1189,6 +1200,35 @@ fn disconnect_preds(a: &Analysis, v: &mut Vec<Viol>, f: &mut Feat) {
                                 ),
                             });
                         }
+                    }
+                }
+            }
+        }
+        if o.res == Res::End && matches!(o.k, K::IterNext | K::StreamNext) && !a.prog.pay_is_zst() && a.prog.pay_droppable() {
+            // the iterator / stream ended: nothing accepted earlier may still be waiting
+            let already_ended = o.k == K::StreamNext
+                && a.ops[..i].iter().any(|p| p.k == K::StreamNext && p.stream_id == o.stream_id && p.res == Res::End);
+            let closed_before = a
+                .ops
+                .iter()
+                .any(|c| c.k == K::Close && c.res == Res::Unit && c.inv < r)
+                || a.ex.rescue_stamp.map(|x| x < r).unwrap_or(false);
+            if !already_ended && !closed_before {
+                for (id, p) in a.led.pays.iter().enumerate() {
+                    if !p.created || a.is_sentinel(p) {
+                        continue;
+                    }
+                    let so = &a.ops[p.by_op as usize];
+                    if send_out(so) == SendOut::Success && retx(so) < o.inv && a.take_begin(id as u32) >= r {
+                        v.push(Viol {
+                            pred: "end_before_drained",
+                            op: Some(i as u32),
+                            detail: format!(
+                                "{} reported the end although value {} had been accepted earlier and had not been taken by anybody",
+                                o.k.name(),
+                                id
+                            ),
+                        });
                     }
                 }
             }
